@@ -144,4 +144,5 @@ package lexer
 //@ func New(input string) (result *Lexer)
 //@   tags C08
 //@   ensures @C14 new.lexer: result != nil && fresh(result) && lexOK(result) && chOK(result)
+//@   ensures @C14 new.chars: len(result.characters) == runeCount(input)
 //@   panics never
